@@ -1000,6 +1000,12 @@ def directed_cascades(w, rng):
         own = rng.choice(ex)
         stages = [("everyone", [ch]), ("twice", [ch, own] if rng.random() < 0.5 else [own, ch])]
         out.append({"kind": "adhoc_dict", "arg": {nm: cons for nm, cons in stages}, "stages": stages, "directed": "charac+own-compartment"})
+    fracs = [c for c in w.charac_names if has_denominator(fw, c) and expand_constituent(fw, c)]
+    if fracs:
+        # (c) a fraction (a characteristic with a denominator) heading a cascade, written as a BARE STRING: cascade stages are numbers of people, however the stage is spelt
+        ch = rng.choice(fracs)
+        part = rng.choice(expand_constituent(fw, ch))
+        out.append({"kind": "adhoc_dict", "arg": {"prop": ch, "part": [part]}, "stages": [("prop", [ch]), ("part", [part])], "directed": "fraction-stage-bare-string"})
     # databook constituents (numbers, not fractions) whose expansions are pairwise disjoint, so that the cascade is valid
     pool = [c for c in w.data_labels if not has_denominator(fw, c) and expand_constituent(fw, c)]
     rng.shuffle(pool)
